@@ -583,7 +583,7 @@ func (s *Sim) Clone(rng *rand.Rand) (*Sim, error) {
 		return nil, err
 	}
 	n := &Sim{W: w, Topo: s.Topo, rng: rng, Pods: map[string]*PodRec{}, caseID: s.caseID,
-		allocStep: map[string]int{}, poolSizes: map[string]int{}, released200: map[string]bool{},
+		allocStep: map[string]int{}, poolSizes: map[string]int{}, released200: map[string]bool{}, everReleased200: map[string]bool{},
 		reloadDropped: map[string]bool{}}
 	n.Counts = map[string]int{}
 	n.adminReserved = map[string]bool{}
@@ -613,6 +613,9 @@ func (s *Sim) Clone(rng *rand.Rand) (*Sim, error) {
 	}
 	for k, v := range s.reloadDropped {
 		n.reloadDropped[k] = v
+	}
+	for k, v := range s.everReleased200 {
+		n.everReleased200[k] = v
 	}
 	for k, v := range s.replHist {
 		n.replHist[k] = append([]int(nil), v...)
